@@ -47,6 +47,8 @@ class Observer(ArbModel):
 
     def observe(self, obs, letter, outs, hw, hw2):
         pi, ii = self.pi, self.ii
+        if self.missing:
+            return dict(msg=self.missing[0], signature=dict(kind="metadata", what="port_missing")), 0
         owner = self.owner_of(hw)
         if owner is None:
             return dict(msg="no unique initiator owns the shared bus in this state (zero or several candidates)",
